@@ -866,6 +866,8 @@ def is_(a, b):
         return False
     if isinstance(a, SymRef) and isinstance(b, SymRef):
         return a.same_as(b)
+    if hasattr(type(a), "__symid__") and hasattr(type(b), "__symid__"):
+        return wrap_bool(tm.Eq(a.__symid__(), b.__symid__()))
     return a is b
 
 
